@@ -5,7 +5,9 @@ open SqliteConn Drv
 /-! Line protocol for the connection-lifecycle model (both modes are run side by side on the
 table generated from the current source; content = a version counter).
   `reset`                                   → `reset`
-  `table`                                   → `ok=<0|1> noleak=<0|1> oneconn=<0|1> secs=<n> ops=<n> unknowns=<n>`
+  `table`                                   → `ok=<0|1> noleak=<0|1> oneconn=<0|1> secs=<n> ops=<n> unknowns=<n> locks=<0|1>`
+  `lk|<task>|<obj>|<acq or rel>`            → `single=<lres> percall=<lres>`  (lock request / release by a task on a state store object;
+                                               `<lres>` is `got`, `wait`, `next:<task or ->`, `notheld` or `nostore`)
   `final`                                   → `same=<0|1> pend=<0|1> open=<0|1>`  (committed content equal; shared connection has uncommitted changes / is open)
   `new|<viaCreate 0|1>`                     → `store=<i> given=<0|1>`
   `sec|<obj or ->|<section>|<ok>|<began>|<wrote>` → `single=<res>/<onShared> percall=<res> open=<0|1> intx=<0|1> pend=<0|1> same=<0|1> s+<opened>/<closed> p+<opened>/<closed>`
@@ -16,6 +18,8 @@ namespace Drv.SqliteConn
 structure St2 where
   s : St Nat := init table .single 0
   p : St Nat := init table .perCall 0
+  ls : LSt := {}
+  lp : LSt := {}
 
 def b01 (b : Bool) : String := if b then "1" else "0"
 
@@ -26,11 +30,19 @@ def showRes : Res Nat → String
   | .noStore => "nostore"
   | .noSec => "nosec"
 
+def showLRes : LRes → String
+  | .got => "got"
+  | .wait => "wait"
+  | .next none => "next:-"
+  | .next (some t) => s!"next:{t}"
+  | .notHeld => "notheld"
+  | .noStore => "nostore"
+
 def step (st : St2) (line : String) : St2 × String :=
   match line.splitOn "|" with
   | ["reset"] => ({}, "reset")
   | ["table"] =>
-    (st, s!"ok={b01 (tableOk table)} noleak={b01 (tableNoLeak table)} oneconn={b01 (instanceProvider table)} secs={table.secs.length} ops={table.ops.length} unknowns={table.unknowns}")
+    (st, s!"ok={b01 (tableOk table)} noleak={b01 (tableNoLeak table)} oneconn={b01 (instanceProvider table)} secs={table.secs.length} ops={table.ops.length} unknowns={table.unknowns} locks={b01 table.lockPerStore}")
   | ["final"] =>
     (st, s!"same={b01 (st.s.committed == st.p.committed)} pend={b01 st.s.pending.isSome} open={b01 st.s.sharedOpen}")
   | ["new", v] =>
@@ -41,7 +53,7 @@ def step (st : St2) (line : String) : St2 × String :=
       let sem : Sem Nat Nat := fun _ _ c => ⟨true, false, false, c, 0⟩
       let r1 := runProg table .single sem p st.s
       let r2 := runProg table .perCall sem p st.p
-      ({ s := r1.1, p := r2.1 }, s!"store={r1.2} given={b01 (r1.1.stores.getLast?.getD false)}")
+      ({ st with s := r1.1, p := r2.1 }, s!"store={r1.2} given={b01 (r1.1.stores.getLast?.getD false)}")
   | ["sec", o, name, oks, bs, ws] =>
     let obj? : Option (Option Nat) := if o == "-" then some none else (parseNat? o).map some
     match obj?, parseBool? oks, parseBool? bs, parseBool? ws with
@@ -56,8 +68,16 @@ def step (st : St2) (line : String) : St2 × String :=
           | none => "-"
           | some b => b01 b
       let out := s!"single={showRes r1.2}/{on} percall={showRes r2.2} open={b01 r1.1.sharedOpen} intx={b01 r1.1.inTx} pend={b01 r1.1.pending.isSome} same={b01 (r1.1.committed == r2.1.committed)} s+{r1.1.opened - st.s.opened}/{r1.1.closed - st.s.closed} p+{r2.1.opened - st.p.opened}/{r2.1.closed - st.p.closed}"
-      ({ s := r1.1, p := r2.1 }, out)
+      ({ st with s := r1.1, p := r2.1 }, out)
     | _, _, _, _ => (st, "bad-op")
+  | ["lk", ts, os, kind] =>
+    match parseNat? ts, parseNat? os, (if kind == "acq" then some true else if kind == "rel" then some false else none) with
+    | some task, some obj, some isAcq =>
+      let a : LAct := if isAcq then .acq task obj else .rel task obj
+      let r1 := lockStep table st.s.stores a st.ls
+      let r2 := lockStep table st.p.stores a st.lp
+      ({ st with ls := r1.1, lp := r2.1 }, s!"single={showLRes r1.2} percall={showLRes r2.2}")
+    | _, _, _ => (st, "bad-op")
   | _ => (st, "bad-op")
 
 end Drv.SqliteConn
